@@ -35,7 +35,20 @@ pub fn root_seed() -> u64 {
 // ------------------------------------------------------------------------------------------
 // worker
 // ------------------------------------------------------------------------------------------
+/// A worker or exec child that outlives its parent (parent killed while the child spins in an
+/// endless loop of the code under test) would burn a CPU for ever: exit when the parent is gone.
+pub fn die_with_parent() {
+    let parent = unsafe { libc::getppid() };
+    std::thread::spawn(move || loop {
+        std::thread::sleep(Duration::from_secs(1));
+        if unsafe { libc::getppid() } != parent {
+            std::process::exit(3);
+        }
+    });
+}
+
 pub fn worker(property: &str, tier: &str) {
+    die_with_parent();
     crate::session::install_panic_hook();
     silence_stderr();
     let corpus = load_corpus(&corpus_path());
@@ -69,6 +82,19 @@ pub fn silence_stderr() {
             libc::close(devnull);
         }
     }
+}
+
+/// CPU seconds (user + system) a process has consumed so far, from /proc/<pid>/stat.
+/// Stall detection counts CPU time, not wall time: a worker that is merely starved by other
+/// load makes no progress without burning CPU, a worker in an endless loop burns it.
+pub fn process_cpu_secs(pid: u32) -> Option<f64> {
+    let s = std::fs::read_to_string(format!("/proc/{}/stat", pid)).ok()?;
+    let rest = &s[s.rfind(')')? + 2..];
+    let f: Vec<&str> = rest.split_whitespace().collect();
+    let utime: f64 = f.get(11)?.parse().ok()?;
+    let stime: f64 = f.get(12)?.parse().ok()?;
+    let hz = unsafe { libc::sysconf(libc::_SC_CLK_TCK) } as f64;
+    Some((utime + stime) / if hz > 0.0 { hz } else { 100.0 })
 }
 
 // ------------------------------------------------------------------------------------------
@@ -121,13 +147,16 @@ pub fn exec_isolated_masked(run: &Run, limit: Duration, mask: Option<&str>) -> I
     });
     let start = Instant::now();
     let mut stalled = false;
+    let pid = child.id();
     loop {
         match child.try_wait() {
             Ok(Some(_)) => break,
             Ok(None) => {}
             Err(_) => break,
         }
-        if start.elapsed() > limit {
+        // the limit is CPU time of the child (wall time only as a very generous backstop)
+        let cpu = process_cpu_secs(pid).unwrap_or_else(|| start.elapsed().as_secs_f64());
+        if cpu > limit.as_secs_f64() || start.elapsed() > limit * 20 {
             stalled = true;
             let _ = child.kill();
             break;
@@ -156,6 +185,7 @@ struct WorkerSlot {
     child: Child,
     current: Option<u64>,
     since: Instant,
+    cpu_since: f64,
 }
 
 struct Agg {
@@ -250,7 +280,7 @@ pub fn run_batch(cfg: &CheckCfg, indices: Vec<u64>) -> (AggOut, Vec<(u64, String
                     break;
                 }
                 let child = spawn_worker(&property, &tier, mask.as_deref());
-                let slot = Arc::new(Mutex::new(WorkerSlot { child, current: None, since: Instant::now() }));
+                let slot = Arc::new(Mutex::new(WorkerSlot { child, current: None, since: Instant::now(), cpu_since: 0.0 }));
                 let mut stdin = slot.lock().unwrap().child.stdin.take().unwrap();
                 let stdout = slot.lock().unwrap().child.stdout.take().unwrap();
                 let finished = Arc::new(AtomicBool::new(false));
@@ -261,8 +291,13 @@ pub fn run_batch(cfg: &CheckCfg, indices: Vec<u64>) -> (AggOut, Vec<(u64, String
                         std::thread::sleep(Duration::from_millis(200));
                         let mut s = s2.lock().unwrap();
                         if s.current.is_some() && s.since.elapsed() > stall_limit {
-                            let _ = s.child.kill();
-                            return true;
+                            // no progress for a while: a stall only if the worker also burnt that
+                            // much CPU meanwhile (otherwise it is just starved by other load)
+                            let cpu_now = process_cpu_secs(s.child.id()).unwrap_or(f64::MAX);
+                            if cpu_now - s.cpu_since > stall_limit.as_secs_f64() || s.since.elapsed() > stall_limit * 30 {
+                                let _ = s.child.kill();
+                                return true;
+                            }
                         }
                     }
                     false
@@ -277,6 +312,7 @@ pub fn run_batch(cfg: &CheckCfg, indices: Vec<u64>) -> (AggOut, Vec<(u64, String
                     let mut s = slot.lock().unwrap();
                     s.current = Some(i);
                     s.since = Instant::now();
+                    s.cpu_since = process_cpu_secs(s.child.id()).unwrap_or(0.0);
                 } else {
                     alive = false;
                 }
@@ -287,7 +323,9 @@ pub fn run_batch(cfg: &CheckCfg, indices: Vec<u64>) -> (AggOut, Vec<(u64, String
                         Ok(_) => {}
                     }
                     if line.starts_with("B ") {
-                        slot.lock().unwrap().since = Instant::now();
+                        let mut s = slot.lock().unwrap();
+                        s.since = Instant::now();
+                        s.cpu_since = process_cpu_secs(s.child.id()).unwrap_or(0.0);
                         continue;
                     }
                     if line.starts_with("HARNESS-ERROR") {
@@ -305,6 +343,7 @@ pub fn run_batch(cfg: &CheckCfg, indices: Vec<u64>) -> (AggOut, Vec<(u64, String
                                 let mut s = slot.lock().unwrap();
                                 s.current = Some(i);
                                 s.since = Instant::now();
+                                s.cpu_since = process_cpu_secs(s.child.id()).unwrap_or(0.0);
                                 drop(s);
                                 let _ = writeln!(stdin, "{}", i);
                                 let _ = stdin.flush();
